@@ -2,6 +2,7 @@ package nc
 
 import (
 	"go/token"
+	"go/types"
 	"sort"
 
 	"golang.org/x/tools/go/ssa"
@@ -274,6 +275,10 @@ type selCase struct {
 func selCases(actionBlock *ssa.BasicBlock, G ssa.Value) []selCase {
 	g := stripCT(G)
 	if _, isPhi := g.(*ssa.Phi); !isPhi {
+		// the element at an index found by a scan (`k := -1; for ... { k = i; break }; if k >= 0 { xs[k]... }`)
+		if cs := idxSelCases(actionBlock, g); len(cs) > 0 {
+			return cs
+		}
 		return []selCase{{Cand: g, Conds: effGuards(actionBlock, g)}}
 	}
 	sites, _ := ptrSites(g)
@@ -774,4 +779,387 @@ func (ip *IterPath) takesEdge(from, to *ssa.BasicBlock) bool {
 		}
 	}
 	return false
+}
+
+// ---------------------------------------------------------------------------
+// Fifth robustness round: values carried by a by-value struct local.
+//
+// `var split nodeSplit; ...; split = newNodeSplit(..)` (helper expanded in place by the normaliser) keeps
+// the objects a mutator is about to insert in the fields of a struct-valued local instead of in three
+// SSA-promoted variables. go/ssa does not promote such a local: the inserted value is a load of a field
+// address of an Alloc. c05Web is phiWeb that also looks through such loads.
+//
+// What it claims: when the local is private (structLocals: its address is used for nothing but field
+// loads/stores and whole-struct loads/stores, so no other code can write it), a read of field f of the
+// local yields a value that some store put there - a store to that field, the field f of a whole struct
+// stored into the local (followed into the source local when that is a private struct local of the same
+// type, an opaque feeder otherwise) - or the zero value from the creation of the local. The feeder set is
+// therefore a superset (flow-insensitive) of the values the read can see; rules that demand something of
+// EVERY feeder (origin, constructor arguments) stay sound, and a store of anything else into the field
+// shows up as a foreign feeder exactly as a foreign phi edge would.
+func c05Web(v ssa.Value) *phiWebT {
+	w := &phiWebT{Phis: map[*ssa.Phi]bool{}}
+	seen := map[ssa.Value]bool{}
+	seenCell := map[localCell]bool{}
+	var locals map[*ssa.Alloc]bool
+	var fn *ssa.Function
+	if in, ok := v.(ssa.Instruction); ok {
+		fn = in.Parent()
+	}
+	if fn != nil {
+		locals = structLocals(fn)
+	}
+	var visit func(x ssa.Value)
+	zero := func(c localCell) {
+		z := zeroScalarConst(c.typ())
+		if k, ok := z.(*ssa.Const); ok && k != nil {
+			if k.Value == nil {
+				w.HasNil = true
+			} else {
+				w.Consts = append(w.Consts, k)
+			}
+			return
+		}
+		// a field of composite type that was never written: nothing the rules could recognise
+		w.Feeders = append(w.Feeders, c.a)
+	}
+	var visitCell func(c localCell)
+	visitCell = func(c localCell) {
+		if seenCell[c] {
+			return
+		}
+		seenCell[c] = true
+		zero(c) // the local coming into being
+		Instrs(fn, func(_ *ssa.BasicBlock, _ int, in ssa.Instruction) {
+			st, ok := in.(*ssa.Store)
+			if !ok {
+				return
+			}
+			if cc, isCell := cellOfAddr(locals, st.Addr); isCell && cc == c {
+				visit(st.Val)
+				return
+			}
+			if st.Addr != ssa.Value(c.a) {
+				return
+			}
+			switch y := st.Val.(type) {
+			case *ssa.Const:
+				zero(c)
+			case *ssa.UnOp:
+				src, isLocal := y.X.(*ssa.Alloc)
+				if y.Op == token.MUL && isLocal && locals[src] && types.Identical(deref(src.Type()), deref(c.a.Type())) {
+					visitCell(localCell{src, c.f})
+					return
+				}
+				w.Feeders = append(w.Feeders, st.Val)
+			default:
+				w.Feeders = append(w.Feeders, st.Val)
+			}
+		})
+	}
+	visit = func(x ssa.Value) {
+		if seen[x] {
+			return
+		}
+		seen[x] = true
+		switch y := x.(type) {
+		case *ssa.ChangeType:
+			visit(y.X)
+		case *ssa.Phi:
+			w.Phis[y] = true
+			for _, e := range y.Edges {
+				visit(e)
+			}
+		case *ssa.Const:
+			if y.Value == nil {
+				w.HasNil = true
+			} else {
+				w.Consts = append(w.Consts, y)
+			}
+		default:
+			if c, ok := cellOfLoad(locals, x); ok {
+				visitCell(c)
+				return
+			}
+			// field f of a whole-struct read of a private local
+			if f, ok := x.(*ssa.Field); ok {
+				if u, isU := f.X.(*ssa.UnOp); isU && u.Op == token.MUL {
+					if a, isA := u.X.(*ssa.Alloc); isA && locals[a] {
+						visitCell(localCell{a, f.Field})
+						return
+					}
+				}
+			}
+			w.Feeders = append(w.Feeders, x)
+		}
+	}
+	visit(v)
+	return w
+}
+
+// ---------------------------------------------------------------------------
+// "Search for an index, then act on xs[index]" (what slices.IndexFunc leaves once it is expanded into
+// its loop, or the same written by hand):
+//
+//	k := -1; for i := range xs { if hit(xs[i]) { k = i; break } }; if k >= 0 { act on xs[k] }
+//
+// The object acted on is named by a NEW load xs[k] after the scan, k a phi of sentinel constants and
+// scan indices. idxSelCases turns this into the same case list selCases produces for a lookup that
+// hands out the element: one case per edge on which a scan index enters k, whose candidate is the
+// element the scan itself loaded at that index (the value the hit conditions were evaluated on).
+// Established for each case (see c05SameElem): the action's load yields the very pointer the scan
+// loaded, because no instruction that can write memory lies between the two and the index is the same.
+
+// c05ConstRefuted: some branch outcome in gs compares ph itself with a constant and is false for ph == k.
+func c05ConstRefuted(gs []Guard, ph *ssa.Phi, k int64) bool {
+	for _, g := range gs {
+		x, y, op, ok := CmpFact(g.Cond, g.True)
+		if !ok || x != ssa.Value(ph) {
+			continue
+		}
+		c, isInt := constInt(y)
+		if !isInt {
+			continue
+		}
+		var holds bool
+		switch op {
+		case token.EQL:
+			holds = k == c
+		case token.NEQ:
+			holds = k != c
+		case token.LSS:
+			holds = k < c
+		case token.LEQ:
+			holds = k <= c
+		case token.GTR:
+			holds = k > c
+		case token.GEQ:
+			holds = k >= c
+		default:
+			continue
+		}
+		if !holds {
+			return true
+		}
+	}
+	return false
+}
+
+// c05SameShapeSubst is sameLoadShape where the index ix on the x side corresponds to iy on the y side;
+// every other index must be the same constant on both sides.
+func c05SameShapeSubst(x, y, ix, iy ssa.Value) bool {
+	for depth := 0; depth < 24; depth++ {
+		if x == y {
+			return true
+		}
+		switch a := x.(type) {
+		case *ssa.UnOp:
+			b, ok := y.(*ssa.UnOp)
+			if !ok || a.Op != token.MUL || b.Op != token.MUL {
+				return false
+			}
+			x, y = a.X, b.X
+		case *ssa.FieldAddr:
+			b, ok := y.(*ssa.FieldAddr)
+			if !ok || a.Field != b.Field {
+				return false
+			}
+			x, y = a.X, b.X
+		case *ssa.IndexAddr:
+			b, ok := y.(*ssa.IndexAddr)
+			if !ok {
+				return false
+			}
+			if !(a.Index == ix && b.Index == iy) {
+				ka, oka := constInt(a.Index)
+				kb, okb := constInt(b.Index)
+				if !oka || !okb || ka != kb {
+					return false
+				}
+			}
+			x, y = a.X, b.X
+		default:
+			return false
+		}
+	}
+	return false
+}
+
+// c05PureFrom: no instruction that can write memory executes between the latest execution of
+// E.Instrs[first] and an execution of B.Instrs[lastB] that follows it (B != E). All blocks control can
+// pass in between are those reachable from E and reaching B without re-entering E.
+func c05PureFrom(E *ssa.BasicBlock, first int, B *ssa.BasicBlock, lastB int) bool {
+	if E == nil || B == nil || E == B || !E.Dominates(B) {
+		return false
+	}
+	for i := first; i < len(E.Instrs); i++ {
+		if !memPure(E.Instrs[i]) {
+			return false
+		}
+	}
+	fwd := map[*ssa.BasicBlock]bool{}
+	stack := append([]*ssa.BasicBlock{}, E.Succs...)
+	for len(stack) > 0 {
+		x := stack[len(stack)-1]
+		stack = stack[:len(stack)-1]
+		if x == E || fwd[x] {
+			continue
+		}
+		fwd[x] = true
+		stack = append(stack, x.Succs...)
+	}
+	bwd := map[*ssa.BasicBlock]bool{}
+	stack = append([]*ssa.BasicBlock{}, B.Preds...)
+	for len(stack) > 0 {
+		x := stack[len(stack)-1]
+		stack = stack[:len(stack)-1]
+		if x == E || bwd[x] {
+			continue
+		}
+		bwd[x] = true
+		stack = append(stack, x.Preds...)
+	}
+	for x := range fwd {
+		if !bwd[x] {
+			continue
+		}
+		for _, in := range x.Instrs {
+			if !memPure(in) {
+				return false
+			}
+		}
+	}
+	for i := 0; i < lastB && i < len(B.Instrs); i++ {
+		if !memPure(B.Instrs[i]) {
+			return false
+		}
+	}
+	return true
+}
+
+// c05SameElem: a (a load `xs[ia]` made by the scan) and b (the load `xs[ib]` the action makes, ib a phi of
+// the integer web `web`) yield the same value whenever ib holds the instance of ia that entered the web
+// over an edge leaving block `from`. Let E be the block of the first load of a's access path (the load next
+// to the parameter). Required:
+//   - both access paths perform the same steps from the same parameter (ia against ib, constants otherwise);
+//   - E dominates every load of both paths, a's block dominates `from`, and E strictly dominates every phi of
+//     the web. If X dominates Y dominates Z (X != Y), every path from an execution of X to Z passes Y (else an
+//     entry path to X avoiding Y, which exists, would extend to one reaching Z without Y). Hence, counted from
+//     the latest execution of E: a's loads, the definition of ia, the traversal of the edge out of `from`,
+//     every phi step of the web up to ib, and b's loads all happen after it, in this order of dependence,
+//     and ib holds the ia instance a was loaded with;
+//   - no instruction between that execution of E and b can write memory (c05PureFrom), so both access paths
+//     read the same, unchanged locations.
+func c05SameElem(a, b *ssa.UnOp, ia, ib ssa.Value, from *ssa.BasicBlock, web *phiWebT) bool {
+	la, okA := loadChain(a)
+	lb, okB := loadChain(b)
+	if !okA || !okB || !c05SameShapeSubst(a, b, ia, ib) {
+		return false
+	}
+	base := la[len(la)-1]
+	E, first := base.Block(), instrIndex(base)
+	if E == nil || a.Block() == nil || !a.Block().Dominates(from) {
+		return false
+	}
+	for _, l := range append(append([]*ssa.UnOp{}, la...), lb...) {
+		if l.Block() == nil || !E.Dominates(l.Block()) || (l.Block() == E && instrIndex(l) < first) {
+			return false
+		}
+	}
+	for q := range web.Phis {
+		if q.Block() == E || !E.Dominates(q.Block()) {
+			return false
+		}
+	}
+	return c05PureFrom(E, first, b.Block(), instrIndex(b))
+}
+
+// idxSelCases: see the note above. nil when G is not of that form or one of the facts cannot be established.
+func idxSelCases(actionBlock *ssa.BasicBlock, G ssa.Value) []selCase {
+	g, ok := stripCT(G).(*ssa.UnOp)
+	if !ok || g.Op != token.MUL {
+		return nil
+	}
+	ia, ok := g.X.(*ssa.IndexAddr)
+	if !ok {
+		return nil
+	}
+	ph, ok := ia.Index.(*ssa.Phi)
+	if !ok {
+		return nil
+	}
+	web := phiWeb(ph)
+	gs := Guards(actionBlock)
+	// every sentinel the index variable can hold is excluded where the action runs (the outcome was evaluated on
+	// the instance of ph the action uses: ph's block dominates the deciding block, which dominates the action)
+	for _, k := range web.Consts {
+		kv, isInt := constInt(k)
+		if !isInt || !c05ConstRefuted(gs, ph, kv) {
+			return nil
+		}
+	}
+	var out []selCase
+	for _, q := range orderedPhis(web) {
+		for i, e := range q.Edges {
+			if _, isPhi := e.(*ssa.Phi); isPhi {
+				continue
+			}
+			if _, isC := e.(*ssa.Const); isC {
+				continue
+			}
+			from := q.Block().Preds[i]
+			var cand ssa.Value
+			if refs := e.Referrers(); refs != nil {
+				for _, r := range *refs {
+					xa, isIA := r.(*ssa.IndexAddr)
+					if !isIA || xa.Index != e || xa.Referrers() == nil {
+						continue
+					}
+					for _, r2 := range *xa.Referrers() {
+						if ld, isLd := r2.(*ssa.UnOp); isLd && ld.Op == token.MUL && cand == nil && c05SameElem(ld, g, e, ph, from, web) {
+							cand = ld
+						}
+					}
+				}
+			}
+			if cand == nil {
+				return nil
+			}
+			s := ptrSite{from, q.Block(), q, cand}
+			conds := append([]Guard{}, gs...)
+			conds = append(conds, effCondsAt(from, q.Block(), cand)...)
+			out = append(out, selCase{Cand: cand, Conds: conds, Site: &s})
+		}
+	}
+	return out
+}
+
+// c05SameCellRead: x and y are the same SSA value, or two reads of the same field of a private by-value struct
+// local made in one block with no write to that field (or to the whole local) between them: both yield the
+// value of the last store before the first read.
+func c05SameCellRead(x, y ssa.Value) bool {
+	if x == y {
+		return true
+	}
+	xi, okX := x.(ssa.Instruction)
+	yi, okY := y.(ssa.Instruction)
+	if !okX || !okY || xi.Parent() == nil || xi.Block() == nil || xi.Block() != yi.Block() {
+		return false
+	}
+	locals := structLocals(xi.Parent())
+	cx, isX := cellOfLoad(locals, x)
+	cy, isY := cellOfLoad(locals, y)
+	if !isX || !isY || cx != cy {
+		return false
+	}
+	i, j := instrIndex(xi), instrIndex(yi)
+	if i > j {
+		i, j = j, i
+	}
+	for k := i; k <= j; k++ {
+		if writesCell(locals, xi.Block().Instrs[k], cx) {
+			return false
+		}
+	}
+	return true
 }
